@@ -84,6 +84,28 @@ theorem onlyDisabled_of_B (env : List Entry) (l : List PTok) (h : onlyDisabledB 
   · exact absurd hname h1
   · exact h1
 
+theorem allKept_of_B (env : List Entry) : ∀ (l : List PTok), allKeptB env l = true → AllKept env l
+  | [], _ => trivial
+  | t :: rest, h => by
+    simp only [allKeptB, Bool.and_eq_true] at h
+    exact ⟨kept_of_keptB env t rest h.1, allKept_of_B env rest h.2⟩
+
+theorem argsOK_of_B (env : List Entry) : ∀ (args args' : List (List PTok)), argsOKB env args args' = true →
+    ∀ (i : Nat) (a a' : List PTok), args[i]? = some a → args'[i]? = some a' → ArgOK env a a'
+  | [], _, _ => fun i a a' ha => by simp at ha
+  | _ :: _, [], _ => fun i a a' _ ha' => by simp at ha'
+  | x :: xs, y :: ys, h => by
+    simp only [argsOKB, Bool.and_eq_true, Bool.or_eq_true] at h
+    intro i a a' ha ha'
+    cases i with
+    | zero =>
+      simp only [List.getElem?_cons_zero, Option.some.injEq] at ha ha'
+      subst ha; subst ha'
+      rcases h.1 with h1 | h1
+      · exact Or.inl (onlyDisabled_of_B env _ h1)
+      · exact Or.inr (allKept_of_B env _ h1)
+    | succ j => exact argsOK_of_B env xs ys h.2 j a a' (by simpa using ha) (by simpa using ha')
+
 theorem lastTok_ws (l : List PTok) (h : ∀ t ∈ l, t.tok.isWhitespace = true) : lastTok l = none := by
   induction l with
   | nil => rfl
@@ -208,9 +230,7 @@ theorem tameRun_sound (f : Nat) : ∀ (env : List Entry) (l out : List PTok), (e
                           (noFire_of_B env mi R rest' hnf) (ih env rest' o hnd ho)
                         · intro i a a' ha ha'
                           exact ih env a a' hnd (hpt i a a' ha ha')
-                        · intro a' ha'
-                          rw [List.all_eq_true] at hod
-                          exact onlyDisabled_of_B env a' (hod a' ha')
+                        · exact argsOK_of_B env args args' hod
                         · exact ih (disable env mi) body' R (by rw [names_disable]; exact hnd) hR
                       · cases h
                     · cases h
@@ -246,6 +266,24 @@ theorem onlyDisabledB_of (env : List Entry) (l : List PTok) (h : OnlyDisabled en
     · exact Or.inr (h t ht n htk e he hn)
     · exact Or.inl hn
   | _ => rfl
+
+theorem allKeptB_of (env : List Entry) : ∀ (l : List PTok), AllKept env l → allKeptB env l = true
+  | [], _ => rfl
+  | t :: rest, h => by
+    simp only [allKeptB, Bool.and_eq_true]
+    exact ⟨keptB_of_kept env t rest h.1, allKeptB_of env rest h.2⟩
+
+theorem argsOKB_of (env : List Entry) : ∀ (args args' : List (List PTok)),
+    (∀ (i : Nat) (a a' : List PTok), args[i]? = some a → args'[i]? = some a' → ArgOK env a a') →
+    argsOKB env args args' = true
+  | [], _, _ => by simp [argsOKB]
+  | _ :: _, [], _ => by simp [argsOKB]
+  | x :: xs, y :: ys, h => by
+    simp only [argsOKB, Bool.and_eq_true, Bool.or_eq_true]
+    refine ⟨?_, argsOKB_of env xs ys (fun i a a' ha ha' => h (i + 1) a a' (by simpa using ha) (by simpa using ha'))⟩
+    rcases h 0 x y (by simp) (by simp) with h1 | h1
+    · exact Or.inl (onlyDisabledB_of env _ h1)
+    · exact Or.inr (allKeptB_of env _ h1)
 
 theorem lastTok_some (R : List PTok) (k : Tok) (h : lastTok R = some k) :
     ∃ R0 b R1, R = R0 ++ ⟨k, b⟩ :: R1 ∧ ∀ t ∈ R1, t.tok.isWhitespace = true := by
@@ -450,10 +488,7 @@ theorem tameRun_complete {env : List Entry} {l out : List PTok} (h : Tame env l 
     obtain ⟨g, rfl⟩ : ∃ g, f' = g + 1 := ⟨f' - 1, by omega⟩
     have hargs : mapO (tameRun g env) args = some args' :=
       mapO_of_pointwise _ _ _ hlen (fun i a a' ha ha' => hF i a a' ha ha' g (by omega))
-    have hodB : args'.all (onlyDisabledB env) = true := by
-      rw [List.all_eq_true]
-      intro a' ha'
-      exact onlyDisabledB_of env a' (hod a' ha')
+    have hodB : argsOKB env args args' = true := argsOKB_of env args args' hod
     unfold tameRun
     simp only [selectIdx_of_selects env n mi e hsel, hra, hargs, hodB, if_true, hsub, hf1 g (by omega),
       noFireB_of env mi R rest' hnf, hf2 g (by omega)]
@@ -558,7 +593,7 @@ theorem tame_object_total (n : Nat) : ∀ (env : List Entry), enabledCount env =
           refine ⟨R ++ outr, Tame.invoke env k tb rest mi e rest [] [] e.m.body R outr hs ?_ rfl ?_ ?_ ?_ hR ?_ hrest⟩
           · simp [readArgs, htab.obj e hmem]
           · intro i a a' ha; simp at ha
-          · intro a' ha'; cases ha'
+          · intro i a a' ha; simp at ha
           · exact RsslVerif.Lemmas.MacroSubst.substitute_noargs _ _ (htab.noArg e hmem)
           · intro R0 g b R1 _ _ _ j e' hj _ hf
             rw [htab.obj e' (List.mem_of_getElem? hj)] at hf
